@@ -3353,20 +3353,19 @@ func (x *Extractor) ExpandCalls(r *RF) *RF {
 		}
 		sub := x.newFC(f, bind, nil)
 		sub.bindArgs = args
-		// a function that fills memory in a loop is not its gated return value: the value of
+		// a function that fills memory it returns is not its gated return value: the value of
 		// `res := make([]float64, n); for … { res[i] = … }; return res` would be the bare
 		// allocation, the same for any arguments with equal n (found by the mutation sweep:
-		// Linspace(f/sp, …) compared equal to Linspace(f*sp, …))
-		if len(sub.Ctx.Loops()) > 0 {
-			return nil
-		}
+		// Linspace(f/sp, …) compared equal to Linspace(f*sp, …)) — rejected below. A scalar
+		// computed by a loop is fine: its loop-carried atoms are applications to the arguments.
 		v := sub.gatedReturns(f.Blocks[0], 0, nil)
 		if v == nil || x.S.isBottom(v) {
 			return nil
 		}
+		own := x.W.FuncName(f) + ":"
 		for _, va := range v.Atoms(true) {
-			if strings.HasPrefix(va.Name, "makeslice:") || strings.HasPrefix(va.Name, "makemap:") {
-				return nil
+			if strings.HasPrefix(va.Name, "makeslice:"+own) || strings.HasPrefix(va.Name, "makemap:"+own) {
+				return nil // memory the callee allocates (and may fill): its contents are not in the value
 			}
 		}
 		if ta := v.SingleAtom(); ta != nil && ta.Name == "tuple" {
